@@ -47,6 +47,8 @@ def gen_value(ty, rnd, depth=0):
         return {gen_key(ty.key, rnd, i): gen_value(ty.val, rnd, depth + 1) for i in range(n)}
     if isinstance(ty, TSmallInt):
         return rnd.choice([0, 1, 2, 3, 4, 5, 7, 8, 9, 15, 16, 17, 31, 32, 33, 63, 64, 65, 100, 159, 160, 161, 255, 256, 300, -1])
+    if isinstance(ty, TPyDict):
+        return {k: (gen_value(t, rnd, depth + 1) if isinstance(t, Ty) else t) for k, t in ty.fields.items()}
     if isinstance(ty, TObj):
         cd = CLASSES[ty.cls]
         g = getattr(cd, "gen", None)
